@@ -203,13 +203,13 @@ theorem joinBlocks_omaps {ir ir' : IR} {id1 id2 : Nat} {b1 b2 : Block}
     · cases h
     · injection h with h
       subst h
-      have ho : (if b2.isCode then (ir.joinSyms b1 id2).joinCode b1 id2 else ir.joinSyms b1 id2).aux.omaps = ir.aux.omaps := by
+      have ho : (if b2.isCode then (ir.joinSyms b1 id2).joinCode b1 id2 b2.size else ir.joinSyms b1 id2).aux.omaps = ir.aux.omaps := by
         split
-        · rw [core_omaps (joinCode_core _ _ _)]; rfl
+        · rw [core_omaps (joinCode_core _ _ _ _)]; rfl
         · rfl
-      have hc : (if b2.isCode then (ir.joinSyms b1 id2).joinCode b1 id2 else ir.joinSyms b1 id2).aux.cfi = ir.aux.cfi := by
+      have hc : (if b2.isCode then (ir.joinSyms b1 id2).joinCode b1 id2 b2.size else ir.joinSyms b1 id2).aux.cfi = ir.aux.cfi := by
         split
-        · rw [core_cfi (joinCode_core _ _ _)]; rfl
+        · rw [core_cfi (joinCode_core _ _ _ _)]; rfl
         · rfl
       constructor
       · show joinOmaps _ b1.id b1.size id2 = _
